@@ -355,6 +355,12 @@ def recogniseAll (strictWeek : Bool) (sepCfg : Option Nat) (s : Bytes) : List (I
 def recognise (strictWeek : Bool) (sepCfg : Option Nat) (s : Bytes) : List Value :=
   ((recogniseAll strictWeek sepCfg s).map fun p => denote p.1 p.2).eraseDups
 
+/-- the same, readings with a digit as the date/time separator left out (C07 does not demand them:
+    they are ambiguous with the basic forms) -/
+def recogniseNoDigitSep (strictWeek : Bool) (sepCfg : Option Nat) (s : Bytes) : List Value :=
+  (((recogniseAll strictWeek sepCfg s).filter fun p => p.1.time == .none || !isDig p.1.sep).map
+    fun p => denote p.1 p.2).eraseDups
+
 /-! ### auxiliary entry points: a date alone, a time (+offset) alone, an offset alone -/
 
 def recogniseDate (strictWeek : Bool) (s : Bytes) : List (Int × Int × Int) :=
